@@ -9,8 +9,9 @@
    lines, threading the variables).
    Spec: Spec/Env.v (env = association list, most recent binding first; step / run / latest). *)
 From SC.Model Require Import Base Num Types Config Case Match Post Parser Items Interp Rules.
+From SC.Model Require Import Chrono UiTokens Rx RuleFns Format Lexer Api.
 From SC.Spec Require Import Expr Env.
-From SC.Proofs Require Import C03.
+From SC.Proofs Require Import SessionLemmas C03.
 
 (* ---- the session's map: lookup after insert; no sortedness assumption is needed ---- *)
 Theorem C03_assoc_insert_lookup : forall (A : Type) (k k' : str) (v : A) (l : list (str * A)),
@@ -96,7 +97,132 @@ Theorem C03_latest_binding : forall cfg p vs en outs vs' n,
   | Some v => v | None => ANone end.
 Proof. exact (latest_binding bexec). Qed.
 
+(* ---- names of several words: `w1 .. wn = e` (e a C02 expression tree) assigns the key
+   lowercase(w1 .. wn) and registers the name tokens of a new variable ---- *)
+Theorem C03_multiword_assign_parse : forall vs w ws (e : expr F), wf e = true ->
+  parse (massign_toks (w :: ws) e) vs =
+  (PAst (AAssignment (name_key (w :: ws)) (ast_of e)),
+   register (name_key (w :: ws)) (name_toks (w :: ws)) vs).
+Proof. exact multiword_assign_parse. Qed.
+
+(* ---- names are case-insensitive: the key is lower-cased (name_key = to_lowercase of the
+   concatenation), a text token matches a name token in any letter case, and re-casing the
+   words of a line changes nothing in the choice of the variable ---- *)
+Theorem C03_text_tokens_match_ci : forall (ti : token_info F) a b,
+  ti_ty ti = Some (TText a) -> to_lowercase a = to_lowercase b -> info_eq_token ti (TText b) = true.
+Proof. exact text_tokens_match_ci. Qed.
+
+Theorem C03_definition_case_irrelevant : forall (ti : token_info F) b b',
+  to_lowercase b = to_lowercase b' ->
+  info_eq_token ti (TText b) = info_eq_token ti (TText b').
+Proof. exact definition_case_irrelevant. Qed.
+
+Theorem C03_case_insensitive_use : forall (vs : vars F) (ts ts' : list (token_info F)) best,
+  Forall2 recased ts ts' -> pick_variable vs ts best = pick_variable vs ts' best.
+Proof. exact case_insensitive_use. Qed.
+
+(* ---- the longest matching name takes precedence: for ALL variable lists, the variable chosen
+   by one pass matches, none of the matching variables starts earlier, and none that starts at
+   the same token is longer ---- *)
+Theorem C03_longest_name : forall (vs : vars F) tail best r,
+  pick_variable vs tail best = Ok r ->
+  (forall st n sz, best = Some (st, n, sz) ->
+     exists st0 n0 sz0, r = Some (st0, n0, sz0) /\ at_least st0 sz0 st sz) /\
+  (forall name vi st, In (name, vi) vs -> find_location tail (v_tokens vi) = Ok (Some st) ->
+     exists st0 n0 sz0, r = Some (st0, n0, sz0) /\ at_least st0 sz0 st (length (v_tokens vi))) /\
+  (r = best \/ exists name vi st, In (name, vi) vs /\ find_location tail (v_tokens vi) = Ok (Some st) /\
+                                  r = Some (st, name, length (v_tokens vi))).
+Proof. exact pick_variable_best. Qed.
+
+(* ---- every occurrence of a name is seen: find_location returns Some k iff k is the LEAST index
+   at which the whole name matches, None iff it matches nowhere (soundness + completeness; the
+   former defect `a a b` / name `a b` was fixed in /repo 542d9d0) ---- *)
+Theorem C03_find_location_some_iff : forall (tokens : list (token_info F)) p0 pat k,
+  find_location tokens (p0 :: pat) = Ok (Some k) <->
+  (occurs_at tokens (p0 :: pat) k /\ forall j, (j < k)%nat -> ~ occurs_at tokens (p0 :: pat) j).
+Proof. exact find_location_some_iff. Qed.
+
+Theorem C03_find_location_none_iff : forall (tokens : list (token_info F)) p0 pat,
+  find_location tokens (p0 :: pat) = Ok None <-> forall j, ~ occurs_at tokens (p0 :: pat) j.
+Proof. exact find_location_none_iff. Qed.
+
+Theorem C03_find_location_complete : forall (pre mid post : list (token_info F)) p0 pat,
+  Forall2 (fun t p => info_eq_token t p = true) mid (p0 :: pat) ->
+  exists k, (k <= length pre)%nat /\ find_location (pre ++ mid ++ post) (p0 :: pat) = Ok (Some k).
+Proof. exact find_location_complete. Qed.
+
+Theorem C03_find_location_finds : forall (pre mid post : list (token_info F)) p0 pat,
+  Forall (fun t => info_eq_token t p0 = false) pre ->
+  Forall2 (fun t p => info_eq_token t p = true) mid (p0 :: pat) ->
+  find_location (pre ++ mid ++ post) (p0 :: pat) = Ok (Some (length pre)).
+Proof. exact find_location_finds. Qed.
+
+Theorem C03_find_location_overlap_example :
+  find_location [txt "a"; txt "a"; txt "b"] [@TText F (s "a"); TText (s "b")] = Ok (Some 1%nat).
+Proof. exact find_location_overlap_example. Qed.
+
+(* ---- what the parser returns for EVERY token list: an assignment-free tree and the session
+   as it was, or `AAssignment name e`, e assignment-free, and the name registered ---- *)
+Theorem C03_parse_shape : forall (tokens : list (token F)) vs r vs',
+  parse tokens vs = (r, vs') ->
+  (vs' = vs /\ match r with PAst a => pure a = true | _ => True end) \/
+  (exists name toks e, r = PAst (AAssignment name e) /\ pure e = true /\
+                       vs' = register name toks vs).
+Proof. exact parse_shape. Qed.
+
+(* ---- every line of text (Api.execute_text, all inputs) changes at most one variable ---- *)
+Theorem C03_line_changes_one_name : forall lx ck cfg lang (vs : vars F) line o vs',
+  execute_text lx ck cfg lang vs line = Ok (o, vs') ->
+  exists name, only_differs_at vs vs' name.
+Proof. exact line_changes_one_name. Qed.
+
+(* ---- a line that fails to evaluate leaves all existing bindings unchanged: the session is
+   untouched, or one NEW name was registered holding no value (assignment.rs:58-70 registers
+   at parse time; this is what known finding C03-ghost-variable is about) ---- *)
+Theorem C03_failed_line_preserves_bindings : forall lx ck cfg lang (vs : vars F) line o vs',
+  execute_text lx ck cfg lang vs line = Ok (o, vs') -> line_failed o ->
+  (vs' = vs \/ exists name toks, assoc_mem name vs = false /\
+                 vs' = assoc_insert name {| v_tokens := toks; v_data := ANone |} vs) /\
+  (forall k, assoc_mem k vs = true -> assoc k vs' = assoc k vs).
+Proof. exact failed_line_preserves_bindings. Qed.
+
+(* ... for whole texts: any number of failing lines (execute / execute_session = eval_lines by
+   SessionLemmas.execute_spec / execute_session_spec) *)
+Theorem C03_failed_lines_preserve_bindings : forall lx ck cfg lang lines (vs : vars F) os vs',
+  eval_lines lx ck cfg lang vs lines = Ok (os, vs') -> Forall line_failed os ->
+  forall k, assoc_mem k vs = true -> assoc k vs' = assoc k vs.
+Proof. exact failed_lines_preserve_bindings. Qed.
+
 End WithNum.
+
+(* ---- non-vacuity through the whole model at binary64 (Corr.run, one multi-line text) ---- *)
+Local Open Scope string_scope.
+
+Theorem C03_examples :
+  outs ["x = 2"; "y = x"; "x = 7"; "y"] = [ok "2"; ok "2"; ok "7"; ok "2"] /\
+  outs ["a b = 3"; "a = 1"; "a b + a"] = [ok "3"; ok "1"; ok "4"] /\
+  outs ["x = 3"; "x = x + 1"; "x = x * x"; "x"] = [ok "3"; ok "4"; ok "16"; ok "16"] /\
+  outs ["My Var = 4"; "my var * 2"; "-MY VAR"] = [ok "4"; ok "8"; ok "-4"] /\
+  outs ["x = 3"; "x = 3 hours * 2 hours"; "x"; "x = 2 *"; "x + 1"]
+    = [ok "3"; err "Unknown calculation"; ok "3"; err "No more token"; ok "4"].
+Proof. exact examples. Qed.
+
+(* ---- overlapping occurrences (formerly a known finding) ---- *)
+Theorem C03_overlap_example :
+  outs ["a b = 3"; "foo a b"; "a a b"; "a b c = 5"; "a a b a b c"] = [ok "3"; ok "3"; ok "3"; ok "5"; ok "8"].
+Proof. exact overlap_example. Qed.
+
+(* ---- the two known findings, reproduced by the model ---- *)
+
+Theorem C03_ghost_refuted :
+  outs ["a = 2"; "a b + 1"] = [ok "2"; ok "3"] /\
+  outs ["a = 2"; "a b = 3 hours * 2 hours"; "a b + 1"]
+    = [ok "2"; err "Unknown calculation"; err "Unknown calculation"].
+Proof. exact ghost_refuted. Qed.
+
+Theorem C03_collision_refuted :
+  outs ["ab = 1"; "a b = 2"; "ab"; "a b"] = [ok "1"; ok "2"; ok "2"; err "No more token"].
+Proof. exact collision_refuted. Qed.
 
 Print Assumptions C03_assoc_insert_lookup.
 Print Assumptions C03_rhs_reads_values.
@@ -107,3 +233,21 @@ Print Assumptions C03_line_frame.
 Print Assumptions C03_value_not_reference.
 Print Assumptions C03_refines.
 Print Assumptions C03_latest_binding.
+Print Assumptions C03_multiword_assign_parse.
+Print Assumptions C03_text_tokens_match_ci.
+Print Assumptions C03_definition_case_irrelevant.
+Print Assumptions C03_case_insensitive_use.
+Print Assumptions C03_longest_name.
+Print Assumptions C03_find_location_some_iff.
+Print Assumptions C03_find_location_none_iff.
+Print Assumptions C03_find_location_complete.
+Print Assumptions C03_find_location_finds.
+Print Assumptions C03_find_location_overlap_example.
+Print Assumptions C03_parse_shape.
+Print Assumptions C03_line_changes_one_name.
+Print Assumptions C03_failed_line_preserves_bindings.
+Print Assumptions C03_failed_lines_preserve_bindings.
+Print Assumptions C03_examples.
+Print Assumptions C03_overlap_example.
+Print Assumptions C03_ghost_refuted.
+Print Assumptions C03_collision_refuted.
